@@ -337,3 +337,23 @@ META["C19"] = {
     "LEVEL_NOTE": "Trusted: numpy linear algebra. The exact-filter-update clause is checked through the MAP Taylor point only.",
     "TECHNIQUE": "deterministic simulation on the loop seam: per-iteration observation, budget-exhaustion and singular-weight faults, conditional-mean oracle",
 }
+
+META["C18"] = {
+    "LEVEL": "exploration",
+    "TIERS": {"quick": 320, "thorough": 12000},
+    "WALLCAP": {"quick": 360, "thorough": 4000},
+    "RULE": ("One evaluation = one seeded initial state (generic, exactly zero, 1e-300, up to 1e300, mixed scales 1e-8..1e8, on an "
+             "equilibrium, zero state and field), polynomial vector field, tolerances 1e-12..1, rate 1..12, array/dict/tuple "
+             "state: both helpers must return a finite, strictly positive step; dt0_adaptive must equal an independent HNW II.4 "
+             "(1e-8, either norm convention); an adaptive solve started from each proposal must finish within 400 attempts "
+             "with finite output. Distinct = distinct (state, field, tolerances, rate)."),
+    "COMPONENTS": {"real": ["ivpsolve.dt0", "ivpsolve.dt0_adaptive", "solve_adaptive_terminal_values + real solver (liveness clause)"],
+                   "stub": [], "seam": ["attempt-counting proxy around the error estimator", "probdiffeq.backend.flow (Python-stepped)"]},
+    "PROBES": ["hnw_compared", "liveness_checked"],
+    "ASSUMPTIONS": ["weak claim: only the bounded-liveness clause is simulation in the proper sense; the rest is input generation "
+                    "(stated in DESIGN.md)", "magnitudes >= 1e100 are outside what double-precision squares can represent: "
+                    "known finding, liveness not attempted there"],
+    "LEVEL_TEXT": "Seeded exploration of degenerate initial states with an independent HNW implementation and a bounded-liveness run.",
+    "LEVEL_NOTE": "Trusted: the mp implementation of HNW II.4 in checks/c18.py.",
+    "TECHNIQUE": "seeded degenerate-input generation plus bounded-liveness simulation (adaptive run from the proposal within an attempt budget)",
+}
